@@ -441,6 +441,98 @@ pub fn check_homonyms(kind: &'static str, place: &'static str, renames: &'static
     }
 }
 
+
+// ---------- family 4: how the source file is reached on disk (real binary) ----------
+
+/// The annotated items of a file are generated however the walker reaches the file: a regular file, a symbolic link to
+/// a regular file outside the scanned tree (with and without --follow-links), a file several directories deep, a file
+/// given directly on the command line.
+fn file_kinds_family(rep: &mut Report) {
+    use crate::cli::{self, par_map, run_cli, s, Scratch};
+    if !cli::bin_available() {
+        rep.machinery(format!("hooks-on CLI binary missing at {}", cli::BIN));
+        return;
+    }
+    const KINDS: [&str; 6] = ["regular", "symlink-to-file", "symlink-to-file-followed", "deep-directory", "file-as-argument", "symlinked-directory-followed"];
+    let mut jobs = Vec::new();
+    for kind in KINDS {
+        for &lang in &ALL_LANGS {
+            for multi in [false, true] {
+                jobs.push((kind, lang, multi));
+            }
+        }
+    }
+    let results = par_map(&jobs, report::threads(), |(kind, lang, multi)| {
+        let sc = Scratch::new("c03f");
+        let linked = "#[typeshare]\npub struct Linked { pub keep: u32, #[serde(skip)] pub gone: u32 }\n\n#[typeshare]\npub enum LinkedE { One, #[typeshare(skip)] Hidden, Two }\n\npub struct NotAnnotated { pub n: u32 }\n";
+        sc.write("ws/app/src/lib.rs", b"#[typeshare]\npub struct Plain { pub p: u32 }\n");
+        let mut extra: Vec<String> = Vec::new();
+        let mut inputs = vec![sc.path("ws").to_string_lossy().into_owned()];
+        match *kind {
+            "regular" => {
+                sc.write("ws/app/src/models.rs", linked.as_bytes());
+            }
+            "symlink-to-file" | "symlink-to-file-followed" => {
+                let target = sc.write("shared/models.rs", linked.as_bytes());
+                let _ = std::os::unix::fs::symlink(&target, sc.path("ws/app/src/models.rs"));
+                if kind.ends_with("followed") {
+                    extra.push(s("-L"));
+                }
+            }
+            "deep-directory" => {
+                sc.write("ws/app/src/a/b/c/d/models.rs", linked.as_bytes());
+            }
+            "file-as-argument" => {
+                let p = sc.write("elsewhere/app/src/models.rs", linked.as_bytes());
+                inputs.push(p.to_string_lossy().into_owned());
+            }
+            _ => {
+                sc.write("shared/app/src/models.rs", linked.as_bytes());
+                sc.mkdir("ws/app/src");
+                let _ = std::os::unix::fs::symlink(sc.path("shared/app/src"), sc.path("ws/app/src/linked_dir"));
+                extra.push(s("-L"));
+            }
+        }
+        sc.mkdir("out");
+        let mut args = cli::lang_args(*lang);
+        args.extend(extra);
+        let out = if *multi { sc.path("out") } else { sc.path(&format!("out/types.{}", lang.ext())) };
+        args.extend([s(if *multi { "-d" } else { "-o" }), out.to_string_lossy().into_owned()]);
+        args.extend(inputs);
+        let r = run_cli(&args, &sc.root, &[], cli::TIMEOUT);
+        let text: String = cli::snapshot(&sc.path("out")).values().map(|v| String::from_utf8_lossy(v).into_owned()).collect::<Vec<_>>().join("\n");
+        (r.class(), r.stderr.chars().take(500).collect::<String>(), text, args)
+    });
+    let mut judged = 0u64;
+    for ((kind, lang, multi), (class, stderr, text, argv)) in jobs.iter().zip(results.iter()) {
+        judged += 1;
+        let mode = if *multi { "multi" } else { "single" };
+        let detail = |what: &str| json!({"how_the_file_is_reached": kind, "lang": lang.name(), "mode": mode, "argv": argv, "exit": class, "stderr": stderr, "output": text, "observation": what});
+        if *class != "ok" {
+            rep.vios.add(Violation { sig: format!("C03|{}|file-kinds|run-{class}|kind={kind}|mode={mode}", lang.name()), detail: detail("the run did not succeed") });
+            continue;
+        }
+        let defs: Vec<String> = match crate::extract::extract(*lang, text) {
+            Ok(of) => of.defs.iter().map(|d| d.name().to_string()).collect(),
+            Err(_) if *multi => text.split(|c: char| !c.is_alphanumeric() && c != '_').map(String::from).collect(), // several files concatenated: token search
+            Err(_) => continue,
+        };
+        for want in ["Plain", "Linked", "LinkedE"] {
+            if !defs.iter().any(|d| d == want) {
+                rep.vios.add(Violation { sig: format!("C03|{}|file-kinds|annotated-item-missing|kind={kind}|mode={mode}", lang.name()), detail: detail(&format!("{want} is annotated and must be generated")) });
+            }
+        }
+        for unwanted in ["NotAnnotated", "gone", "Hidden"] {
+            if text.split(|c: char| !c.is_alphanumeric() && c != '_').any(|t| t == unwanted) {
+                rep.vios.add(Violation { sig: format!("C03|{}|file-kinds|unannotated-or-skipped-member-present|kind={kind}|mode={mode}", lang.name()), detail: detail(&format!("{unwanted} must not be generated")) });
+            }
+        }
+    }
+    rep.cov("file_kinds", json!({"process_runs": jobs.len(), "how_the_file_is_reached": KINDS, "languages": 6, "modes": ["single", "multi"]}));
+    rep.cov_add("evaluations", judged);
+    rep.cov_add("traces_validated_against_impl", jobs.len() as u64);
+}
+
 fn controls(rep: &mut Report) {
     let canned = "export interface Outer {\n\tm0: number;\n\tm2: boolean;\n}\n\nexport interface Extra {\n}\n";
     match crate::extract::extract(Lang::TypeScript, canned) {
@@ -519,6 +611,7 @@ pub fn run(args: &[String]) -> i32 {
         let c = gen_members(ch);
         check_members(&c, &ch.choices(), acc);
     });
+    file_kinds_family(&mut rep);
     require_nonvacuous(&mut rep);
     rep.cov("rule", json!("items family: every sequence of 1..N items over 7 item kinds × annotated/un-annotated × module depth 0..2 × language: the definitions recovered from the output (minus Inner helpers) must equal the annotated items; members family: every skip pattern over three members (27) × skip spelling × attribute style × rename × 4 container kinds × language: members must equal the non-skipped source members in source order. non-trivial = something is un-annotated / nested in a module / skipped."));
     rep.assume("an annotated const in a backend without const support must make the run fail with an error; output without it is a silent omission");
